@@ -177,7 +177,14 @@ def _case_cms(rng, tmp):
     if kind in ("CountMinSketch", "CountMeanSketch", "CountMeanMinSketch", "StreamThreshold"):
         for k in members[: len(members) // 3]:
             obj.remove(k, 1)
-    desc = f"{kind}(width={w}, depth={d}, hash={sname}) after {len(members)} adds"
+    netzero = False
+    if kind in ("CountMinSketch", "CountMeanSketch", "CountMeanMinSketch", "StreamThreshold") and rng.random() < 0.3:
+        # additions and removals that cancel in the total while the bins are not zero (the total is a signed net
+        # count, not a summary of the bins)
+        from search.common import net_zero
+
+        netzero = net_zero(obj)
+    desc = f"{kind}(width={w}, depth={d}, hash={sname}) after {len(members)} adds" + (" and a removal from another key that brings elements_added to 0" if netzero else "")
     chans, path = _export_channels(obj, tmp, "cm")
     probs = []
     if len(set(chans.values())) != 1:
